@@ -74,7 +74,7 @@ def mkblobdata(n):
 def gen_program(rng, kind, ntx=None, small=False):
     """a storage-level history as a json-able program"""
     ntx = ntx or rng.choice([2, 3, 4, 5, 6, 8])
-    oids = [1, 2, 3, 4, 0x10000, 2 ** 63] if not small else [1, 2, 3]
+    oids = [1, 2, 0x10000, 2 ** 63] if not small else [1, 2, 3]
     steps = []
     live = {}            # oid -> True (exists) / False (deleted)
     undoable = []        # step indices
